@@ -178,7 +178,7 @@ func sumCollectDex(k mckeeper.Keeper, ctx sdk.Context) (sdk.Coins, sdk.DecCoins,
 }
 
 // TVL and price maths havocked to arbitrary non-negative values (zero = prices absent)
-func sumPoolTVL(k mckeeper.Keeper, ctx sdk.Context, poolId uint64) sdkmath.LegacyDec {
+func SumPoolTVL(k mckeeper.Keeper, ctx sdk.Context, poolId uint64) sdkmath.LegacyDec {
 	if poolId == 1 {
 		return tvl1
 	}
@@ -195,7 +195,7 @@ func sumEdenPrice(k ammkeeper.Keeper, ctx sdk.Context, baseCurrency string) sdkm
 var edenPrice sdkmath.LegacyDec
 var edenPriceAsked bool
 
-func sumTokenPrice(k ammkeeper.Keeper, ctx sdk.Context, denom, baseCurrency string) sdkmath.LegacyDec {
+func SumTokenPrice(k ammkeeper.Keeper, ctx sdk.Context, denom, baseCurrency string) sdkmath.LegacyDec {
 	p := vrf.Dec("tokenPrice")
 	vrf.Assume(!p.IsNegative())
 	return p
@@ -265,9 +265,9 @@ func mcDistribution(withAmmPool bool) {
 //vrf:summary (github.com/elys-network/elys/x/masterchef/keeper.Keeper).CollectGasFees => sumCollectDec
 //vrf:summary (github.com/elys-network/elys/x/masterchef/keeper.Keeper).CollectPerpRevenue => sumCollectDec
 //vrf:summary (github.com/elys-network/elys/x/masterchef/keeper.Keeper).CollectDEXRevenue => sumCollectDex
-//vrf:summary (github.com/elys-network/elys/x/masterchef/keeper.Keeper).GetPoolTVL => sumPoolTVL
+//vrf:summary (github.com/elys-network/elys/x/masterchef/keeper.Keeper).GetPoolTVL => SumPoolTVL
 //vrf:summary (github.com/elys-network/elys/x/amm/keeper.Keeper).GetEdenDenomPrice => sumEdenPrice
-//vrf:summary (github.com/elys-network/elys/x/amm/keeper.Keeper).GetTokenPrice => sumTokenPrice
+//vrf:summary (github.com/elys-network/elys/x/amm/keeper.Keeper).GetTokenPrice => SumTokenPrice
 //vrf:cover done
 //vrf:bound stable-stake pool only; collected amounts, TVL, prices havocked >= 0; params within Validate(); blocks-per-year, data lifetime, height, time symbolic
 //vrf:max-paths 4000
@@ -278,9 +278,9 @@ func H_Masterchef_EndBlocker_StablePool() { mcDistribution(false) }
 //vrf:summary (github.com/elys-network/elys/x/masterchef/keeper.Keeper).CollectGasFees => sumCollectDec
 //vrf:summary (github.com/elys-network/elys/x/masterchef/keeper.Keeper).CollectPerpRevenue => sumCollectDec
 //vrf:summary (github.com/elys-network/elys/x/masterchef/keeper.Keeper).CollectDEXRevenue => sumCollectDex
-//vrf:summary (github.com/elys-network/elys/x/masterchef/keeper.Keeper).GetPoolTVL => sumPoolTVL
+//vrf:summary (github.com/elys-network/elys/x/masterchef/keeper.Keeper).GetPoolTVL => SumPoolTVL
 //vrf:summary (github.com/elys-network/elys/x/amm/keeper.Keeper).GetEdenDenomPrice => sumEdenPrice
-//vrf:summary (github.com/elys-network/elys/x/amm/keeper.Keeper).GetTokenPrice => sumTokenPrice
+//vrf:summary (github.com/elys-network/elys/x/amm/keeper.Keeper).GetTokenPrice => SumTokenPrice
 //vrf:cover done
 //vrf:bound 1 amm pool with symbolic multiplier / eden flag + stable pool with zero TVL; 0..1 external incentive; otherwise as above
 //vrf:max-paths 4000
@@ -536,4 +536,93 @@ func H_Amm_EdenPrice_NeverZero() {
 		vrf.Cover("pool-priced")
 	}
 	vrf.Assert(price.IsPositive(), "C18: the Eden price used by the masterchef end blocker is positive whatever pools exist and whatever the price feeds do (its zero-price error cannot be reached)")
+}
+
+// ---- C13 on the distribution itself: what one block credits to all pools never exceeds what was collected for it ----
+
+var (
+	creditedUsdc sdkmath.Int
+	collectedSum sdkmath.LegacyDec
+)
+
+// contract of UpdateAccPerShare (its accrual algebra is h_c13's R1): records the credit
+func SumRecordCredit(k mckeeper.Keeper, ctx sdk.Context, poolId uint64, rewardDenom string, amount sdkmath.Int) {
+	vrf.Assert(!amount.IsNegative(), "C13: no negative amount is credited to a pool")
+	if rewardDenom == usdc {
+		creditedUsdc = creditedUsdc.Add(amount)
+	}
+}
+
+func SumCollectDecRec(k mckeeper.Keeper, ctx sdk.Context, baseCurrency string) (sdk.DecCoins, error) {
+	c, err := sumCollectDec(k, ctx, baseCurrency)
+	collectedSum = collectedSum.Add(c.AmountOf(baseCurrency))
+	return c, err
+}
+
+func SumCollectDexRec(k mckeeper.Keeper, ctx sdk.Context) (sdk.Coins, sdk.DecCoins, map[uint64]sdkmath.LegacyDec, error) {
+	a, b, m, err := sumCollectDex(k, ctx)
+	collectedSum = collectedSum.Add(m[1])
+	return a, b, m, err
+}
+
+func SumEdenPricePositive(k ammkeeper.Keeper, ctx sdk.Context, baseCurrency string) sdkmath.LegacyDec {
+	p := vrf.Dec("edenPrice")
+	vrf.Assume(p.IsPositive())
+	return p
+}
+
+// one masterchef end blocker over two pools with positive TVL (an amm pool with a symbolic multiplier, any value >= 0
+// governance may set, and the stable-stake pool): the base-currency amounts credited to the pools add up to at most
+// what the collectors reported for the block (gas fees + perpetual revenue for LPs + the pool's DEX revenue)
+//
+//vrf:summary (github.com/elys-network/elys/x/masterchef/keeper.Keeper).CollectGasFees => SumCollectDecRec
+//vrf:summary (github.com/elys-network/elys/x/masterchef/keeper.Keeper).CollectPerpRevenue => SumCollectDecRec
+//vrf:summary (github.com/elys-network/elys/x/masterchef/keeper.Keeper).CollectDEXRevenue => SumCollectDexRec
+//vrf:summary (github.com/elys-network/elys/x/masterchef/keeper.Keeper).GetPoolTVL => SumPoolTVL
+//vrf:summary (github.com/elys-network/elys/x/masterchef/keeper.Keeper).UpdateAccPerShare => SumRecordCredit
+//vrf:summary (github.com/elys-network/elys/x/amm/keeper.Keeper).GetEdenDenomPrice => SumEdenPricePositive
+//vrf:summary (github.com/elys-network/elys/x/amm/keeper.Keeper).GetTokenPrice => SumTokenPrice
+//vrf:cover done credited
+//vrf:bound 2 pools with symbolic TVL > 0 (amm pool 1 with symbolic multiplier in [0, 1000], stable-stake pool with multiplier 1), no Eden incentive, no external incentive; collected amounts symbolic >= 0 (<= 1e15 per block in all); params within Validate()
+//vrf:max-paths 4000
+//vrf:assert-ms 60000
+//vrf:assert-prefix C18
+func H_Masterchef_Distribution_CreditBounded() {
+	env, _ := mcEnv()
+	ctx := env.Ctx
+	creditedUsdc, collectedSum = sdkmath.ZeroInt(), sdkmath.LegacyZeroDec()
+	tvl1, tvlStable = vrf.Dec("tvlPool1"), vrf.Dec("tvlStable")
+	big := sdkmath.LegacyNewDecFromInt(sdkmath.NewIntWithDecimal(1, 30))
+	for _, t := range []sdkmath.LegacyDec{tvl1, tvlStable} {
+		vrf.Assume(t.IsPositive())
+		vrf.Assume(t.LTE(big))
+	}
+	symPool(env)
+	env.Mc.InitPoolParams(ctx, 1)
+	pi, _ := env.Mc.GetPoolInfo(ctx, 1)
+	pi.Multiplier = vrf.Dec("multiplier")
+	vrf.Assume(!pi.Multiplier.IsNegative())
+	vrf.Assume(pi.Multiplier.LTE(sdkmath.LegacyNewDec(1000)))
+	pi.EnableEdenRewards = false
+	env.Mc.SetPoolInfo(ctx, pi)
+	var err error
+	p := guard(func() { err = env.Mc.EndBlocker(ctx) })
+	vrf.Assert(!p, "C18: masterchef EndBlocker never panics")
+	if p || err != nil {
+		return
+	}
+	vrf.Cover("done")
+	if creditedUsdc.IsPositive() {
+		vrf.Cover("credited")
+	}
+	// amounts of one block: at most 1e15 base units (a billion USDC), so that the 18-digit rounding of a pool's share stays
+	// far below one base unit
+	vrf.Assume(collectedSum.LTE(sdkmath.LegacyNewDecFromInt(sdkmath.NewIntWithDecimal(1, 15))))
+	vrf.Observe("credited", creditedUsdc)
+	vrf.Observe("collected", collectedSum)
+	// known finding C13-distribution-rounding-dust: each pool's share and its product with the collected amount are
+	// rounded half-even to 18 digits, so the shares can add up to 1 + 1e-18 and the per-pool truncation can turn that
+	// into one base unit per pool; anything beyond that dust (two pools here) is a violation
+	cd := sdkmath.LegacyNewDecFromInt(creditedUsdc)
+	vrf.AssertExcept(cd.LTE(collectedSum), "C13: the base-currency rewards credited to all pools in a block never exceed what was collected for that block", "C13-distribution-rounding-dust", cd.LT(collectedSum.Add(sdkmath.LegacyNewDec(2))))
 }
